@@ -457,7 +457,10 @@ pub fn bitcoin_scripts(rng: &mut Rng, n: usize) -> Vec<Vec<u8>> {
                 // multisig grid 0<=m,n<=16 with n, n±1 keys
                 let m = rng.below(17) as u8;
                 let nn = rng.below(17) as u8;
-                let nk = (nn as i32 + rng.range(0, 2) as i32 - 1).max(0) as usize;
+                let mut nk = (nn as i32 + rng.range(0, 2) as i32 - 1).max(0) as usize;
+                if rng.chance(1, 12) {
+                    nk = *rng.pick(&[17usize, 20, 100, 255, 256, 257, 300]);
+                }
                 let keys: Vec<Vec<u8>> = (0..nk)
                     .map(|_| {
                         let c = rng.coin();
@@ -487,7 +490,7 @@ pub fn bitcoin_scripts(rng: &mut Rng, n: usize) -> Vec<Vec<u8>> {
 
 /// hostile byte strings (C14): length 0..100 KB
 pub fn hostile(rng: &mut Rng) -> Vec<u8> {
-    match rng.below(14) {
+    match rng.below(15) {
         12 => {
             // very short scripts: every opcode alone, OP_RETURN / push opcodes with 0..2 following bytes
             match rng.below(4) {
@@ -496,6 +499,29 @@ pub fn hostile(rng: &mut Rng) -> Vec<u8> {
                 2 => vec![*rng.pick(&[0x6au8, 0x00, 0x51, 0x76, 0xa9]), rng.next() as u8],
                 _ => vec![0x6a, *rng.pick(&[0x4cu8, 0x4d, 0x4e, 0x01, 0x02]), rng.next() as u8],
             }
+        }
+        14 => {
+            // multisig look-alike with hundreds of pushes: OP_m <push>*k [OP_n OP_CHECKMULTISIG]
+            let k = *rng.pick(&[17usize, 20, 21, 100, 255, 256, 257, 300, 1000]);
+            let mut v = vec![0x50 + rng.range(1, 16) as u8];
+            for _ in 0..k {
+                match rng.below(3) {
+                    0 => v.push(0x00),
+                    1 => {
+                        v.push(1);
+                        v.push(rng.next() as u8);
+                    }
+                    _ => {
+                        v.push(33);
+                        v.extend(rng.bytes(33));
+                    }
+                }
+            }
+            if rng.coin() {
+                v.push(0x50 + rng.range(1, 16) as u8);
+                v.push(0xae);
+            }
+            v
         }
         13 => {
             // an otherwise canonical template whose data slot is hostile
